@@ -185,6 +185,20 @@ func (s *Sim) drawGapLocked() int {
 // W is the yield point inserted before every statement of instrumented code:
 // a goroutine which does not hold the run token parks; the holder may be
 // preempted.
+// cover counts, per yield site of the instrumented code, how often a running
+// goroutine passed it (all runs of this process; only touched under Sim.mu,
+// and one simulation runs at a time).
+var cover = map[string]int{}
+
+// CoverSnapshot returns a copy of the site counters.
+func CoverSnapshot() map[string]int {
+	m := make(map[string]int, len(cover))
+	for k, v := range cover {
+		m[k] = v
+	}
+	return m
+}
+
 func W(site string) {
 	s := cur.Load()
 	if s == nil {
@@ -215,6 +229,7 @@ func (s *Sim) yield(site string, force bool) {
 		s.stats.Yields++
 		g.site = site
 		if !force {
+			cover[site]++
 			s.gap -= s.weight(site)
 			if s.gap > 0 {
 				s.mu.Unlock()
